@@ -80,6 +80,8 @@ pub fn conv(tok: &str, ty: &str) -> (bool, Vec<u8>) {
 }
 
 pub struct TypedCtx {
+    /// raw commands handed to the processor (name + classified arguments), before parsing
+    pub raw_calls: Vec<Value>,
     pub calls: Vec<Value>,
     pub errs: Vec<Value>,
     pub script: HandlerScript,
@@ -87,6 +89,12 @@ pub struct TypedCtx {
 }
 
 impl TypedCtx {
+    pub fn on_raw(&mut self, raw: &embedded_cli::command::RawCommand<'_>) {
+        let args: Vec<Value> = raw.args().args().map(|a| crate::cli_run::arg_json(&a)).collect();
+        self.raw_calls
+            .push(json!({"name": raw.name().as_bytes(), "args": args}));
+    }
+
     pub fn on_ok(
         &mut self,
         cli: &mut CliHandle<'_, Sink, SinkError>,
@@ -180,6 +188,7 @@ pub fn run_parse(req: &Value, out: &mut dyn FnMut(Value)) {
         prompt: -1,
     };
     let mut ctx = TypedCtx {
+        raw_calls: vec![],
         calls: vec![],
         errs: vec![],
         script: hs,
